@@ -300,7 +300,8 @@ def rule_r3(prog, res, ef, tier):
         if c is None:
             continue
         tabs = tables_of(prog, c)
-        for tname in ('_from_unicode_handlers', '_from_bytes_handlers'):
+        for tname in ('_from_unicode_handlers', '_from_bytes_handlers',
+                      'deserialization_handlers'):
             for key, e in sorted(tabs.get(tname, {}).items()):
                 n_entries += 1
                 t = e.target
@@ -1012,6 +1013,11 @@ MUTANTS = [
                    r"\(date_match\.string\)",
                    r"    return datetime(\1)", regex=True),
            '_parse_datetime_iso_match'),
+    Mutant('xml-enum-unchecked-getattr', 'R3', 'fire', 'spyne/protocol/xml.py',
+           in_func('XmlDocument.enum_from_element',
+                   "        if element.text not in cls.__values__:\n"
+                   "            raise ValidationError(element.text)\n", ""),
+           'enum_from_element'),
     Mutant('enum-unchecked-getattr', 'R3', 'fire', _I,
            in_func('InProtocolBase.enum_base_from_bytes',
                    "        if value not in cls.__values__:\n"
